@@ -95,6 +95,11 @@ def scene(rng):
                         continue
                     used.add(xy)
                     pk.append(list(xy)); vv.append(rng.randint(1, 32) / 32.0); ch.append(node)
+        if pk and rng.random() < 0.5:
+            # the detector lists peaks in (row, column, channel) order - node types interleaved, not grouped by node
+            perm = list(range(len(pk)))
+            rng.shuffle(perm)
+            pk, vv, ch = [pk[i] for i in perm], [vv[i] for i in perm], [ch[i] for i in perm]
         peaks.append(torch.tensor(pk, dtype=torch.float32).reshape(-1, 2))
         vals.append(torch.tensor(vv, dtype=torch.float32))
         chans.append(torch.tensor(ch, dtype=torch.int32))
